@@ -873,3 +873,54 @@ def _walk_own_deep(fn):
 
 def _inside(node, fn) -> bool:
     return any(x is node for x in ast.walk(fn))
+
+
+# ---------------------------------------------------------------------------------------------------------------------
+# look-ups in literal tables
+
+
+class _TableGet(ast.NodeTransformer):
+    """`TABLE.get(k[, d])` where TABLE is a small dict display (module level, assigned once, or written in place) is the
+    conditional chain `V1 if k == K1 else V2 if k == K2 else d`: dispatch through a table and dispatch through an if / elif
+    chain become one shape.  The key expression must be free of calls (it is repeated in every comparison)."""
+
+    MAX_ROWS = 12
+
+    def __init__(self, tree):
+        self.n = 0
+        self.tables = {}
+        counts = {}
+        for n in ast.walk(tree):
+            if isinstance(n, ast.Name) and isinstance(n.ctx, ast.Store):
+                counts[n.id] = counts.get(n.id, 0) + 1
+        for st in tree.body:
+            if isinstance(st, ast.Assign) and len(st.targets) == 1 and isinstance(st.targets[0], ast.Name) and isinstance(st.value, ast.Dict) \
+                    and counts.get(st.targets[0].id) == 1 and None not in st.value.keys:
+                self.tables[st.targets[0].id] = st.value
+
+    def visit_Call(self, node: ast.Call):
+        self.generic_visit(node)
+        f = node.func
+        if not (isinstance(f, ast.Attribute) and f.attr == "get" and 1 <= len(node.args) <= 2 and not node.keywords):
+            return node
+        table = f.value if isinstance(f.value, ast.Dict) else self.tables.get(f.value.id) if isinstance(f.value, ast.Name) else None
+        if table is None or not (0 < len(table.keys) <= self.MAX_ROWS) or None in table.keys:
+            return node
+        key = node.args[0]
+        if any(isinstance(x, (ast.Call, ast.NamedExpr, ast.Await, ast.Yield, ast.YieldFrom)) for x in ast.walk(key)):
+            return node
+        default = node.args[1] if len(node.args) == 2 else ast.Constant(value=None)
+        chain = default
+        for k, v in reversed(list(zip(table.keys, table.values))):
+            test = ast.Compare(left=copy.deepcopy(key), ops=[ast.Eq()], comparators=[copy.deepcopy(k)])
+            chain = ast.IfExp(test=test, body=copy.deepcopy(v), orelse=chain)
+        self.n += 1
+        return ast.copy_location(chain, node)
+
+
+def expand_table_lookups(tree: ast.Module) -> int:
+    t = _TableGet(tree)
+    t.visit(tree)
+    if t.n:
+        ast.fix_missing_locations(tree)
+    return t.n
